@@ -282,6 +282,45 @@ def engine_survives_can_handle_exception():
         return rec
 
 
+def engine_iteration_order():
+    """the sub-steps the REAL _thread_func performs in one pass, with and without a datagram waiting:
+    the model's phase cycle is send -> recv -> loop -> cleanup (-> sub-class hook) in every iteration"""
+    from geckolib.driver import GeckoUdpSocket, GeckoUdpProtocolHandler
+    out = []
+    for waiting in (False, True):
+        with W2() as w2:
+            sock = GeckoUdpSocket()
+            ms = MockSock(w2.clock)
+            sock._socket = ms
+            sock.open()
+            order = []
+
+            class H(GeckoUdpProtocolHandler):
+                def can_handle(self, received_bytes, sender):
+                    return True
+
+                def handle(self, received_bytes, sender):
+                    order.append("dispatch")
+
+                def loop(self, socket):
+                    order.append("loop")
+
+            sock.add_receive_handler(H())
+            for name, tag in (("_process_received_data", "recv"), ("_cleanup_handlers", "cleanup"), ("_loop_func", "hook")):
+                orig = getattr(sock, name)
+                setattr(sock, name, (lambda orig=orig, tag=tag: (order.append(tag), orig())[1]))
+            real_send = type(sock)._process_send_requests
+            # (W2.step shadows _process_send_requests itself: the first statement of the pass)
+            if waiting:
+                ms.inbox.append((b"x", ("10.0.0.1", 10022)))
+            w2.advance(0.05)
+            order.append("send")
+            with contextlib.redirect_stdout(io.StringIO()):
+                W2.step(sock)
+            out.append({"kind": "order", "waiting": waiting, "order": order})
+    return out
+
+
 VERBS = [b"AVERS", b"CURCH", b"SFILE", b"STATU"]
 
 
@@ -375,6 +414,11 @@ def run(ctx):
         raise env.MachineryError(f"registry replay compared only {rsteps} steps")
     ev.cov["registry_behaviours"] = len(rbehs)
     ev.cov["registry_steps_compared"] = rsteps
+    for orec in engine_iteration_order():
+        want = ["send", "recv"] + (["dispatch"] if orec["waiting"] else []) + ["loop", "cleanup", "hook"]
+        if orec["order"] != want:
+            ctx.violation({"clause": "iteration-sub-steps-differ-from-the-model", "datagram_waiting": orec["waiting"]},
+                          {"expected": want, "got": orec["order"]})
     rec = engine_survives_can_handle_exception()
     if rec["escaped"] or not rec["dispatched_after"]:
         ctx.violation({"clause": "handler-exception-stops-the-engine", "where": "can_handle"}, rec)
